@@ -30,6 +30,12 @@ Fixpoint assoc_n {B} (tbl : list (N * B)) (k : N) : option B :=
   match tbl with [] => None | (x, v) :: r => if x =? k then Some v else assoc_n r k end.
 Definition re_of (tbl : list (N * (N * N))) (s : list cp) : option (N * N) := assoc_n tbl (blen s).
 
+(* per-filter-instance oracle tables: the instance id is the position of the filter in the chain *)
+Definition stem_of (tbls : list (N * list (list cp * list cp))) (l : N) (t : list cp) : list cp :=
+  match assoc_n tbls l with Some tbl => text_fn_of tbl t | None => t end.
+Definition dicts_of (tbls : list (N * list (list cp * list (N * N)))) (d : N) (t : list cp) : list (N * N) :=
+  match assoc_n tbls d with Some tbl => dict_of tbl t | None => [] end.
+
 (* ---- tokens: the predicate of C19_token_offsets ---- *)
 Definition tokens_spec (text : list cp) (ts : list token) : bool :=
   forallb (span_okb text) ts && sorted_byb t_pos ts.
